@@ -13,16 +13,49 @@ Definition run_case (c : case) : obs :=
              out_obs (run_prog cenv c_lookup c_assign c_push c_pop c_callfn RUN_FUEL (co_prog co) (genv_of c))]
   end.
 
-(* the property on the implementation's observable: every sentinel-delimited
-   contribution of a tag whose file escapes with xhtml_escape is the escaped form
-   of one of the values (and has no markup character); every raw / autoescape-None
-   contribution is the unescaped UTF-8 form of one of the values *)
+(* The specification by per-file annotation: every file's expression tags are
+   annotated with THAT file's escaping function when the file is loaded
+   (annotate_file), includes / overriding blocks / inheritance are substituted
+   without looking at any setting (aresolve), and the result is interpreted
+   directly: an annotated tag contributes utf8(f(utf8(value))), a raw / None tag
+   contributes utf8(value). *)
+Definition spec_out (c : case) : option obs :=
+  let ld := the_loader c in
+  match root_template c with
+  | GErr _ => None
+  | GOk t =>
+      match ancestors GEN_FUEL ld t with
+      | GErr _ => None
+      | GOk ancs =>
+          match rev ancs with
+          | [] => None
+          | root :: _ =>
+              match fnb_all GEN_FUEL ld (rev ancs) [] with
+              | GErr _ => None
+              | GOk nb =>
+                  match aresolve GEN_FUEL ld nb (annotate_file root) with
+                  | GOk (us, []) =>
+                      match refine_list us with
+                      | COk rs =>
+                          Some (OList [OTag "ok";
+                                       out_obs (run_template cenv c_lookup c_assign c_push c_pop c_callfn
+                                                  RUN_FUEL rs (genv_of c))])
+                      | _ => None
+                      end
+                  | _ => None
+                  end
+              end
+          end
+      end
+  end.
+
+(* the implementation's output must be the one of the per-file annotated template;
+   construction errors must be the model's.  (The sentinel oracle — escaped
+   segments contain no markup and are the escaped form of a value — is applied to
+   the same observable by py_check in harness/props/c20.py.) *)
 Definition check_case (c : case) (o : obs) : bool :=
   match o with
-  | OList [OTag "ok"; OBytes out] =>
-      match segments SOut out with
-      | Some segs => forallb (seg_ok (candidates (snd c))) segs
-      | None => false
-      end
+  | OList [OTag "ok"; _] =>
+      match spec_out c with Some s => obs_eqb o s | None => false end
   | _ => obs_eqb o (run_case c)
   end.
